@@ -27,6 +27,8 @@ static MC ofReal(const std::shared_ptr<const IntervalConstraint>& ic) { MC m; m.
 // configurations: 4 bounds that differ beyond the sixth significant digit ([0.5,10] / [0.5000001,10] / [0.5,10.000001] / [0.5,10]); 0 none; 1 all [0,10]; 2 mixed [0,10] / [1,5] / none / [0,10]; 3 one bound value shared with different strictness: [0,10] / ]0,10] / [0,10[ / ]0,5]
 static MC consCfg(int cfg, int i) { if (cfg == 0) return {false, 0, 0}; if (cfg == 1) return {true, 0, 10};
   if (cfg == 4) switch (i % 4) { case 0: return {true, 0.5, 10}; case 1: return {true, 0.5000001, 10}; case 2: return {true, 0.5, 10.000001}; default: return {true, 0.5, 10}; }   // equal when printed with six digits
+  // seeded C03-11: different upper (and lower) bounds whose open/closed flags differ too: the tighter bound must win with its own flag
+  if (cfg == 5) switch (i % 4) { case 0: return {true, 0, 10, true, true}; case 1: return {true, 0, 5, true, false}; case 2: return {true, 0.5, 10, false, false}; default: return {true, 0, 5, false, true}; }
   if (cfg == 3) switch (i % 4) { case 0: return {true, 0, 10, true, true}; case 1: return {true, 0, 10, false, true}; case 2: return {true, 0, 10, true, false}; default: return {true, 0, 5, false, true}; }
   switch (i % 4) { case 0: return {true, 0, 10}; case 1: return {true, 1, 5}; case 2: return {false, 0, 0}; default: return {true, 0, 10}; } }
 
@@ -265,8 +267,8 @@ int main(int argc, char** argv) {
     R.explore(nm, depth, proto.nops(), [n, cfg] { return std::unique_ptr<Sys>(new Sys(n, cfg)); }, 2.0); };
   auto runReduced = [&](int n, int cfg, int depth) { Sys proto(n, cfg, true); std::string nm = "alias-histories:N" + str(n) + ":cons" + str(cfg) + ":link-centred-alphabet:d" + str(depth);
     R.explore(nm, depth, proto.nops(), [n, cfg] { return std::unique_ptr<Sys>(new Sys(n, cfg, true)); }, 2.0); };
-  if (!th) { run(3, 0, 64); run(3, 2, 3); run(3, 3, 2); run(3, 4, 2); run(4, 2, 2); runReduced(4, 2, 3); }
-  else { run(3, 0, 64); run(3, 1, 64); run(3, 2, 64); run(3, 3, 64); run(3, 4, 3); run(4, 2, 4); runReduced(4, 3, 4); runReduced(4, 0, 5); }
+  if (!th) { run(3, 0, 64); run(3, 2, 3); run(3, 3, 2); run(3, 4, 2); run(3, 5, 2); run(4, 2, 2); runReduced(4, 2, 3); }
+  else { run(3, 0, 64); run(3, 1, 64); run(3, 2, 64); run(3, 3, 64); run(3, 4, 3); run(3, 5, 3); run(4, 2, 4); runReduced(4, 3, 4); runReduced(4, 0, 5); }
   R.expectSeen("aliasParameters->refused"); R.expectSeen("aliasParameters->done"); R.expectSeen("unaliasParameters->done"); R.expectSeen("bulk-alias->linked"); R.expectSeen("bulk-alias->raised");
   R.note("aliasing does not copy the value at alias time; a bulk update that names an aliased parameter directly is applied sequentially (the alias may then differ from its source until the source changes again)");
   R.note("getAliases maps every aliased parameter to one of its transitive sources (which one depends on register order); getAlias/getAliases are judged under the empty namespace only");
